@@ -122,6 +122,10 @@ let dispatch (op : string) (x : v) : v =
   | "interp_var", [filt; amin; amax; cols] ->
       of_opt (of_list of_q)
         (M.sed_interp_var_m lg pw (to_list to_pt filt) (to_q amin) (to_q amax) (to_list (to_pair to_q (to_list to_pt)) cols))
+  | "curve_list", [m; nu; n] ->
+      let md = match m with S "interp" -> M.Interp | S "largest" -> M.Largest | S "largest+smallest" -> M.LargestSmallest | S "all" -> M.AllAp | _ -> raise (Bad "mode") in
+      of_list (fun (i, j) -> L [of_nat i; of_nat j]) (M.curve_list md (to_nat nu) (to_nat n))
+  | "curve_val", [f; dd; d; k; av; kk] -> of_q (M.curve_val pw (to_q f) (to_q dd) (to_q d) (to_q k) (to_q av) (to_q kk))
   | "ndist", [l; step] -> of_z (M.ndist (to_q l) (to_q step))
   | "gridlog", [lo; hi; n] -> of_list of_q (M.gridlog_m (to_q lo) (to_q hi) (to_nat n))
   | "rank", [chi] -> of_list of_nat (M.rank_m (to_list to_xnum chi))
